@@ -314,10 +314,7 @@ class Check(PropertyCheck):
                   "demanded, but a failed handshake is rejected; (c) `nm` cases have no implementation side (they tie the Python transcription of `matches` to the "
                   "Lean one); (d) the tie compares outcome and the SNI extension actually sent, nothing else. All expected values come from the case: chain validity "
                   "from cryptography's verifier over the minted chain and the configured anchors, the name rule from the case's SAN list; no clause compares two "
-                  "outputs of the layer except the consistency check 'not both established and failed'. FINDING F-C15a (QUIC path): a server certificate with an "
-                  "IP-literal dNSName SAN makes service_identity raise CertificateError inside aioquic's own error handler; the exception leaves "
-                  "QuicLayer.receive_handshake_data (no hook, no error, child unanswered) — fail-closed but not the clean failure the property demands; "
-                  "known() is exactly that class (selftest with near misses).")
+                  "outputs of the layer except the consistency check 'not both established and failed'. The former finding F-C15a (exception out of QuicLayer.receive_handshake_data for an IP-literal dNSName SAN) is repaired in /repo; its witness stays in the corpus and is no longer excused.")
     technique = "Lean 4 proof (decision model + name-matching specification + refinement of the OpenSSL transcription) + translator (flag constants, AST facts) + real-handshake correspondence with an independent chain verifier"
     rule = ("hs: name set (22 shapes: matching, mismatched, wildcard, partial/second-label/double/TLD wildcards, CN-only, IP SAN, IP as dNSName, IDN, case, "
             "non-DNS SANs) x validity {ok, expired, not yet valid} x issuer {trusted root, other root, self-signed, intermediate with/without chain} x target "
@@ -713,35 +710,19 @@ class Check(PropertyCheck):
             fails.append(f"tls_start_server raised / built nothing for the usable server name {eff!r}")
         return fails
 
-    F_C15A_FAILURES = ("layer raised CertificateError: Invalid DNS pattern", "tls_failed_server hook did not fire", "no error recorded on the connection",
-                       "child was told 'n/a' instead of an error", "connection not closed after the failure")
-
     def known(self, case, obs, failure):
-        """F-C15a, exactly: QUIC upstream path, verification on, the server certificate has a dNSName SAN that service_identity refuses as a pattern
-        (an IP-address literal), the exception that left the layer is that CertificateError, and the failure is the exception itself or one of its
-        direct consequences (no failure hook, no error, child unanswered, connection not closed).  Anything else is still reported."""
-        if case.get("op") != "qhs" or not isinstance(obs, dict): return None
-        if not (obs.get("layer_exception") or "").startswith("CertificateError: Invalid DNS pattern"): return None
-        if case["trust"].startswith("insecure"): return None
-        def is_ip(v):
-            try: ipaddress.ip_address(v); return True
-            except ValueError: return False
-        if not any(k == "dns" and is_ip(v) for k, v in case["cert"]["sans"]): return None
-        return "F-C15a" if failure.startswith(self.F_C15A_FAILURES) else None
+        return None          # no recorded findings: F-C15a was repaired in /repo (see known/C15.json "fixed")
 
     def known_selftest(self):
-        # F-C15a: positive witness and near misses
+        # the former finding F-C15a (repaired): its witness and its consequences are no longer excused
         wq = {"op": "qhs", "cert": {"sans": [["dns", "192.0.2.1"], ["dns", "*.0.2.1"]], "cn": None, "validity": "ok", "issuer": "rootA"}, "names": "ip-as-dns",
               "client_sni": "www.example.com", "server_sni": None, "address": "10.0.0.1", "trust": "file"}
-        wo = {"layer_exception": "CertificateError: Invalid DNS pattern b'192.0.2.1'."}
-        assert self.known(wq, wo, "layer raised CertificateError: Invalid DNS pattern b'192.0.2.1'.") == "F-C15a"
-        assert self.known(wq, wo, "tls_failed_server hook did not fire") == "F-C15a"
-        assert self.known(wq, wo, "application data reached the server although the handshake failed") is None          # same input, other failure
-        assert self.known(wq, wo, "handshake completed although the certificate does not name 'www.example.com'") is None
-        assert self.known(wq, {"layer_exception": "KeyError: 'x'"}, "layer raised KeyError: 'x'") is None                  # other exception
-        assert self.known(dict(wq, cert=dict(wq["cert"], sans=[["dns", "www.example.com"]])), wo, "tls_failed_server hook did not fire") is None   # no such SAN
-        assert self.known(dict(wq, op="hs"), wo, "tls_failed_server hook did not fire") is None                              # TCP path
-        assert self.known(dict(wq, trust="insecure"), wo, "tls_failed_server hook did not fire") is None
+        wo = {"outcome": "failed", "hooks": ["tls_start_server"], "open_result": "n/a", "conn_error": False, "closed": False, "peer_plain": "-", "peer_done": False,
+              "sni_ext": None, "tls_established": False, "chain_ok": True, "established_and_failed": False,
+              "layer_exception": "CertificateError: Invalid DNS pattern b'192.0.2.1'."}
+        fs = self.oracle(wq, wo)
+        assert any(f.startswith("layer raised CertificateError") for f in fs) and any("tls_failed_server hook did not fire" in f for f in fs), fs
+        assert all(self.known(wq, wo, f) is None for f in fs)
         self._oracle_selftest()
 
     def _oracle_selftest(self):
